@@ -211,8 +211,18 @@ class World:
         """name -> (object, type tag).  The objects themselves enter the pool."""
         out = {}
 
+        class _Lazy:
+            """add(path, thunk, tag): a constant that a refactoring removed or renamed is skipped, not fatal."""
+
         def add(path, obj, tag):
             out[path] = (obj, tag)
+
+        def tryadd(path, thunk, tag):
+            try:
+                out[path] = (thunk(), tag)
+            except (AttributeError, IndexError, KeyError, TypeError):
+                self.missing_consts.append(path)
+        self.missing_consts = []
         for mname in CURVE_MODULES:
             m = importlib.import_module(f"py_ecc.{mname}")
             for g, names in (("G1", ("G1", "Z1")), ("G2", ("G2", "Z2")), ("G12", ("G12",))):
@@ -226,22 +236,25 @@ class World:
             add(f"{cm.__name__}.w", cm.w, f"E:{mname}_FQ12")
         k = importlib.import_module("py_ecc.optimized_bls12_381.constants")
         for i in range(4):
-            add(f"{k.__name__}.ETAS[{i}]", k.ETAS[i], "E:optimized_bls12_381_FQ2")
-            add(f"{k.__name__}.POSITIVE_EIGHTH_ROOTS_OF_UNITY[{i}]", k.POSITIVE_EIGHTH_ROOTS_OF_UNITY[i],
-                "E:optimized_bls12_381_FQ2")
+            tryadd(f"{k.__name__}.ETAS[{i}]", lambda i=i: k.ETAS[i], "E:optimized_bls12_381_FQ2")
+            tryadd(f"{k.__name__}.POSITIVE_EIGHTH_ROOTS_OF_UNITY[{i}]", lambda i=i: k.POSITIVE_EIGHTH_ROOTS_OF_UNITY[i],
+                   "E:optimized_bls12_381_FQ2")
         for n in ("ISO_3_A", "ISO_3_B", "ISO_3_Z"):
-            add(f"{k.__name__}.{n}", getattr(k, n), "E:optimized_bls12_381_FQ2")
+            tryadd(f"{k.__name__}.{n}", lambda n=n: getattr(k, n), "E:optimized_bls12_381_FQ2")
         for n in ("ISO_11_A", "ISO_11_B", "ISO_11_Z", "SQRT_MINUS_11_CUBED"):
-            add(f"{k.__name__}.{n}", getattr(k, n), "E:optimized_bls12_381_FQ")
+            tryadd(f"{k.__name__}.{n}", lambda n=n: getattr(k, n), "E:optimized_bls12_381_FQ")
         for i in (0, 3):
-            add(f"{k.__name__}.ISO_3_MAP_COEFFICIENTS[{i}][1]", k.ISO_3_MAP_COEFFICIENTS[i][1], "E:optimized_bls12_381_FQ2")
-            add(f"{k.__name__}.ISO_11_MAP_COEFFICIENTS[{i}][2]", k.ISO_11_MAP_COEFFICIENTS[i][2], "E:optimized_bls12_381_FQ")
+            tryadd(f"{k.__name__}.ISO_3_MAP_COEFFICIENTS[{i}][1]", lambda i=i: k.ISO_3_MAP_COEFFICIENTS[i][1],
+                   "E:optimized_bls12_381_FQ2")
+            tryadd(f"{k.__name__}.ISO_11_MAP_COEFFICIENTS[{i}][2]", lambda i=i: k.ISO_11_MAP_COEFFICIENTS[i][2],
+                   "E:optimized_bls12_381_FQ")
         bc = importlib.import_module("py_ecc.bls.constants")
         for i in (1, 3, 6):
-            add(f"{bc.__name__}.EIGHTH_ROOTS_OF_UNITY[{i}]", bc.EIGHTH_ROOTS_OF_UNITY[i], "E:optimized_bls12_381_FQ2")
+            tryadd(f"{bc.__name__}.EIGHTH_ROOTS_OF_UNITY[{i}]", lambda i=i: bc.EIGHTH_ROOTS_OF_UNITY[i],
+                   "E:optimized_bls12_381_FQ2")
         op = importlib.import_module("py_ecc.optimized_bls12_381.optimized_pairing")
         for i in (0, 1, 7):
-            add(f"{op.__name__}.exptable[{i}]", op.exptable[i], "E:optimized_bls12_381_FQ12")
+            tryadd(f"{op.__name__}.exptable[{i}]", lambda i=i: op.exptable[i], "E:optimized_bls12_381_FQ12")
         return out
 
     def tag_of(self, v):
@@ -778,6 +791,7 @@ def t_pinned(ctx):
         {"f": "pop.Sign", "args": [lit(5), lit(b"message")]},
         {"f": "aug.Sign", "args": [lit(5), lit(b"message")]},
     ]
+    steps = sanitize_steps(W, steps)
     n = len(steps)
     case = {"steps": steps, "fresh": [[list(range(n))[::-1], []], [list(range(0, n, 2)) + list(range(1, n, 2)), ["py_ecc.bn128"]]]}
     ctx.ev(n)
@@ -790,6 +804,28 @@ def t_pinned(ctx):
     ctx.label("history:nontrivial")
     ctx.nontrivial([[s["f"], s["args"]] for s in steps])
     ctx.sample({"steps": steps[:10], "length": n}, "pinned")
+
+
+def sanitize_steps(W, steps):
+    """Drop steps that name a constant or function this tree no longer has (a refactoring may remove
+    or rename them) together with the steps that use their results; renumber result references."""
+    keep, newidx = [], {}
+    for i, s in enumerate(steps):
+        ok = s["f"] in W.funcs
+        args = []
+        for r in s["args"]:
+            if "c" in r and r["c"] not in W.consts:
+                ok = False
+            if "r" in r:
+                if r["r"] not in newidx:
+                    ok = False
+                else:
+                    r = {"r": newidx[r["r"]]}
+            args.append(r)
+        if ok:
+            newidx[i] = len(keep)
+            keep.append({"f": s["f"], "args": args})
+    return keep
 
 
 def tasks(tier):
